@@ -23,7 +23,7 @@ def make_v1(T, singles, chords, plain=(), red=1):
               "part": [cfgdesc.code(k) for k in ckeys],
               "chords": [{"ks": sorted(cfgdesc.code(k) for k in ch), "o": cfgdesc.code(CHO[i]), "u": "", "T": T,
                           "first": False, "dis": []} for i, ch in enumerate(chords)],
-              "red": red, "minidle": 0, "lkey": 0, "slack": red + 7}
+              "red": red, "minidle": 0, "lkey": 0, "slack": 2 * red + 10}
     return desc, params
 
 
@@ -54,7 +54,7 @@ def make_v2(chords, keys, red=1, minidle=5, lkey=None):
                           "o": 0 if (uni and uni[0] != "+") else cfgdesc.code(CHO[i]),
                           "u": (uni or "").lstrip("+"), "T": T, "first": rel == "first", "dis": list(dis)}
                          for i, (ks, T, rel, dis, uni) in enumerate(chords)],
-              "red": red, "minidle": minidle, "lkey": cfgdesc.code(lkey) if lkey else 0, "slack": red + 7}
+              "red": red, "minidle": minidle, "lkey": cfgdesc.code(lkey) if lkey else 0, "slack": 2 * red + 10}
     return desc, params
 
 
@@ -197,7 +197,7 @@ def run(tier, seed):
         if depth_override:
             opts = dict(opts, depth=int(depth_override))
         inst, kbd, keys = mc_instance(name, desc, params, opts)
-        r = mc.check_instance(inst, wd, workers=8, timeout=1500)
+        r = mc.check_instance(inst, wd, workers=6, timeout=1500)
         res.add_instance(r)
         log("[c09] %s: %s states, %s edges, drift %s, monerr %s, tlc %ss, wall %ss" % (
             name, r["states"], r.get("edges"), r.get("drift"), r.get("n_monerr"), r["tlc_wall_s"], r["wall_s"]))
